@@ -1,6 +1,6 @@
 // REPLAY for property C07, harness k_apply_match_tiny_buffer (unit K-applymatch, engine kani)
 // Failed obligations:
-//   OBL:applymatch.result_is_the_rfc_copy_and_nothing_else_changes [C03 C07 C08]  at miniz_oxide/src/inflate/core.rs:4289:9 in function inflate::core::verif_inflate_core::apply_match_body::<8>
+//   OBL:applymatch.result_is_the_rfc_copy_and_nothing_else_changes [C03 C07 C08]  at miniz_oxide/src/inflate/core.rs:4300:9 in function inflate::core::verif_inflate_core::apply_match_body::<8>
 // no-failing-input-found: the verifier reported the failed obligation without a concrete model.
 // Verifier output (tail):
 //   Check 367: core::cmp::impls::<impl core::cmp::PartialOrd for usize>::lt.pointer_dereference.12
@@ -55,10 +55,10 @@
 //    ** 3 of 3 cover properties satisfied
 //   
 //   Failed Checks: "OBL:applymatch.result_is_the_rfc_copy_and_nothing_else_changes [C03 C07 C08]"
-//    File: "miniz_oxide/src/inflate/core.rs", line 4289, in inflate::core::verif_inflate_core::apply_match_body::<8>
+//    File: "miniz_oxide/src/inflate/core.rs", line 4300, in inflate::core::verif_inflate_core::apply_match_body::<8>
 //   
 //   VERIFICATION:- FAILED
-//   Verification Time: 63.064182s
+//   Verification Time: 88.766335s
 //   
 //   Manual Harness Summary:
 //   Verification failed for - inflate::core::verif_inflate_core::k_apply_match_tiny_buffer
